@@ -150,7 +150,7 @@ func (e *c15env) validate(raw []byte, m settingsMask) (rej quickfix.MessageRejec
 }
 
 var mutationKinds = []string{"unknown-msgtype", "missing-required-top", "missing-required-member", "undefined-known", "undefined-unknown", "undefined-user",
-	"ill-typed", "enum", "empty", "count+1", "count-1", "swap-members", "header-in-body", "body-in-header", "trailer-in-header", "duplicate", "duplicate-tolerated-unknown", "duplicate-tolerated-user", "header-enum"}
+	"ill-typed", "enum", "empty", "count+1", "count-1", "swap-members", "header-in-body", "body-in-header", "trailer-in-header", "duplicate", "duplicate-tolerated-unknown", "duplicate-tolerated-user", "header-enum", "foreign-field-ill-valued"}
 
 type expectation struct {
 	reasons  []int
@@ -428,6 +428,45 @@ func (e *c15env) run(ch specxml.Chooser, kind string, mask settingsMask, replay 
 		default:
 			exp = expectation{reasons: []int{0}, tags: []int{tag}}
 		}
+	case "foreign-field-ill-valued":
+		// a field the dictionary knows (so it has a type or an enumeration) but that does not belong to
+		// this message, under settings that tolerate such a field: its value is still checked
+		mask |= 4
+		s = mask.settings()
+		where = fmt.Sprintf("%s %s(%s) settings[%s]", e.dict, e.md.Name, e.md.MsgType, mask)
+		var cands []*specxml.FieldDecl
+		for _, name := range e.dp.spec.FieldOrder {
+			fd := e.dp.spec.Fields[name]
+			if !allTags[fd.Number] && fixwire.IsBodyTag(fd.Number) && !e.inHeaderTrailer(fd.Number) && ((typedKind(fd.Type) && fd.Type != "NUMINGROUP" && fd.Type != "LENGTH" && len(fd.Enums) == 0) || (len(fd.Enums) > 0 && !isMultiType(fd.Type))) {
+				cands = append(cands, fd)
+			}
+		}
+		if len(cands) == 0 {
+			c.Class("mutation-not-applicable:" + kind)
+			return
+		}
+		fd := cands[ch.Intn(len(cands))]
+		val, reason := "x!", 6
+		switch {
+		case len(fd.Enums) > 0:
+			val, reason = "~", 5
+		case fd.Type == "BOOLEAN":
+			val = "YES"
+		case fd.Type == "UTCTIMESTAMP" || fd.Type == "TIME":
+			val = "20240101 00:00:00"
+		}
+		var pos []int
+		for k, st := range topStarts {
+			if k > 0 && ann[topStarts[k-1]].isCount {
+				continue
+			}
+			pos = append(pos, st)
+		}
+		if len(pos) == 0 {
+			pos = []int{topStarts[len(topStarts)-1]}
+		}
+		insertAt(pick(pos), fixwire.F(fd.Number, val))
+		exp = expectation{reasons: []int{reason}, tags: []int{fd.Number}}
 	case "ill-typed":
 		var cands []int
 		for i, a := range ann {
